@@ -98,6 +98,9 @@ type engOpts struct {
 	cancelOn    <-chan struct{}
 	cancelDelay time.Duration
 	extraWait   time.Duration
+	// round 4: called once the config is decoded (providers, gun factories and aggregators exist), before the engine
+	// starts; a non-empty result ends the case with that class
+	afterDecode func(pools []engine.InstancePoolConfig) string
 }
 
 func optsOf(m map[string]string) engOpts {
@@ -143,7 +146,7 @@ func parsePhout(data string) ([]shot.Snap, error) {
 //
 // Without either option: shot.RunEngine (nop logger, recording aggregator).
 func runEngineOpt(conf string, o engOpts, timeout time.Duration) shot.Result {
-	if !o.dbg && !o.phout && o.cancelOn == nil {
+	if !o.dbg && !o.phout && o.cancelOn == nil && o.afterDecode == nil {
 		return shot.RunEngine(conf, timeout)
 	}
 	shot.Init()
@@ -171,6 +174,11 @@ func runEngineOpt(conf string, o engOpts, timeout time.Duration) shot.Result {
 	c := cli.DefaultConfig()
 	if err := config.DecodeAndValidate(mapCfg, c); err != nil {
 		return shot.Result{Class: "config:" + strings.Join(strings.Fields(err.Error()), "_")}
+	}
+	if o.afterDecode != nil {
+		if cl := o.afterDecode(c.Engine.Pools); cl != "" {
+			return shot.Result{Class: cl}
+		}
 	}
 	rec := &shot.Rec{}
 	for i := range c.Engine.Pools {
